@@ -67,7 +67,7 @@ MkCore(e, rs, task) ==
                         m |-> IF task = "sed" THEN MatchKinds[1 + ((3 * rs[i] + 5 * i + SumSeq(rs)) % Len(MatchKinds))] ELSE "both"]],
          clips |-> IF task \in {"cc", "cml"} THEN OneEach(e.n)
                    ELSE FromSizes(sh[1 + ((SumSeq(rs) + TaskNo(task)) % Len(sh))]),
-         style |-> (rs[1] + 3 * rs[e.n] + TaskNo(task)) % 2]
+         style |-> (rs[1] + 3 * rs[e.n] + TaskNo(task)) % 4]
 MkCase(e, rs, task) ==
     LET k == MkCore(e, rs, task)  pats == ExtraPatterns(Len(k.clips))
     IN  [task |-> k.task, C |-> k.C, u |-> k.u, items |-> k.items, clips |-> k.clips, style |-> k.style,
@@ -153,6 +153,7 @@ LawTermNamesFunction  == TableTermNamesFunction(c.task, TableVariant)
 ImplMapRefinesReq == (Out /\ ~SingleLabel(c.task)) => ImplMapMLRefinesReq(c.items, c.C, c.u, MapVariant)
 \* the clips evaluated (walk the predictions, keep the annotated ones) are exactly the clips in both inputs, in both orders
 LawEvaluatedClips == ImplIterateRefinesReq(c)
+LawStyle == c.style \in 0..3
 LawExtrasWellFormed == \A i \in DOMAIN c.extras : c.extras[i].pos \in 0..Len(c.clips) /\ c.extras[i].side \in {"pred", "ann"}
 \* detection: an annotation nothing was predicted for is a miss of the accuracy family unless it is itself unlabelled,
 \* and a prediction without annotation is an item of the 'none' class that mean average precision leaves out
